@@ -90,6 +90,19 @@ def id_scheme(rng, name, n, prev_ids=None):
     raise ValueError(name)
 
 
+def boundary_files(rng, schema):
+    """the largest manager id for which the offset still fits a 32-bit int (theorem C14_offset_fits_int32): max id 2147481901
+    -> offset 2147483000; the appended file keeps its ids <= 600 so that id + offset <= 2^31 - 1"""
+    def renumber(pop, ids):
+        ren = {i.id: new for i, new in zip(pop, ids)}
+        return [G.Inst(ren[i.id], [(nm, [G.map_refs(v, lambda r: ren[r]) for v in vs]) for nm, vs in i.parts]) for i in pop]
+    a = G.gen_population(rng, schema, rng.randint(1, 4), p_null_optional=0.3, min_targets=1)
+    ids = rng.sample(range(2147481901 - 400, 2147481901), len(a) - 1) + [2147481901]
+    rng.shuffle(ids)
+    b = G.gen_population(rng, schema, rng.randint(1, 4), p_null_optional=0.3, min_targets=1)
+    return [("int32-boundary", renumber(a, ids)), ("small", renumber(b, rng.sample(range(1, 600), len(b))))]
+
+
 def gen_files(rng, schema, quick):
     nfiles = rng.choice([2, 2, 3])
     files, prev = [], None
@@ -354,7 +367,7 @@ def run(ctx):
         try:
             check_schema_table(h, s)
             for ci in range(n_cases):
-                files = gen_files(ctx.rng, s, quick)
+                files = boundary_files(ctx.rng, s) if ci % 20 == 7 else gen_files(ctx.rng, s, quick)
                 strict = ci % 2
                 layout = ctx.rng if ci % 5 == 4 else None
                 r = run_case(ctx, h, m, s, files, strict, wd, f"c{ci}", layout)
